@@ -17,6 +17,7 @@
   OrbProofs/C12Basic.lean.
 -/
 import OrbProofs.C12Lemmas
+import Orb.SimplifyFast
 
 namespace Orb.Simplify
 open Orb
@@ -39,6 +40,13 @@ theorem dp_endpoints_kept (t : α) (ls out : List (Pt α)) (h : dpSimplify t ls 
 
 theorem dp_closed_stays_closed (t : α) (ls out : List (Pt α)) (h : dpSimplify t ls = .ok out) (hc : Closed ls) :
     Closed out := dp_closed_stays_closed' t ls out h hc
+
+/-- The compiled driver runs Douglas-Peucker with the vertex list held in an array (`dpSA`,
+    Orb/SimplifyFast.lean; the `csimp` lemma `dpS_eq_dpSA` substitutes it for `dpS` in compiled code, so that
+    vertex lists of thousands of vertices with the deepest nesting are compared in milliseconds): it is
+    the model `dpS`, on every input, in every arithmetic. -/
+theorem dp_array_twin (t : α) (ls : List (Pt α)) (area : Bool) : dpSA t ls area = dpS t ls area := by
+  rw [dpS_eq_dpSA]
 
 /-! ### Radial (any distance function) -/
 
